@@ -174,83 +174,102 @@ def rule_G2(ctx):
                       "a return is reachable after xgdep++ without xgdep--", f.loc(inc))
     else:
         ctx.ok("ec_glob", "xgdep++ ... xgdep-- on every path", loc=f.loc(inc))
+    # the loops may live in ec_glob or in a helper of the same file that it calls (the helper's
+    # parameters are then read as the arguments of that call)
+    import re as _re
+    owners = [(f, {}, None)]
+    for c_ in f.calls():
+        h_ = prog.resolve(f, c_["fn"]) if c_.get("fn") else None
+        if h_ is not None and h_.file == f.file and h_ is not f and any(
+                True for _ in h_.calls(("lbuf_globset", "lbuf_globget"))):
+            owners.append((h_, {q["name"]: key(strip_casts(a_)) for q, a_ in zip(h_.params, c_["args"])}, c_))
+
+    def subst_key(k_, sub):
+        for pn_, ak_ in sub.items():
+            k_ = _re.sub(r"(?<![\w>.])%s(?![\w])" % _re.escape(pn_), ak_, k_)
+        return k_
+
+    def index_init(g, lp, iv):
+        """constant / expression the loop index starts from: the for-init, or the last store or
+        initialiser of the index that dominates the loop"""
+        if lp["k"] == "for" and lp.get("init") is not None and lp["init"]["k"] == "bin":
+            return lp["init"]["r"]
+        if lp["k"] == "for" and lp.get("init") is not None and lp["init"]["k"] == "decl":
+            return lp["init"]["vars"][0].get("init")
+        inits = [(n_, r_) for n_, lv_, op_, r_ in stores(g.body)
+                 if lv_["k"] in ("ref", "var") and lv_.get("name") == iv and op_ in ("=", "init") and r_ is not None and
+                 g.cfg.pos(n_) is not None and g.cfg.dominates(n_, lp["c"]) and not any(x["id"] == n_["id"] for x in walk(lp))]
+        return inits[-1][1] if inits else None
     # clearing loop over all lines
     clear = None
-    for lp in f.walk():
-        if lp["k"] not in ("for", "while") or lp.get("c") is None:
-            continue
-        body_calls = [c for c in calls_in(lp["body"], "lbuf_globget")]
-        if not body_calls or any(True for _ in calls_in(lp["body"], ("ex_exec", "ex_command"))):
-            continue
-        iv = key(strip_casts(body_calls[0]["args"][1]))
-        c0 = lp["c"]
-        if c0["k"] != "bin" or c0["op"] not in ("<", ">") or "lbuf_len" not in key(c0):
-            continue
-        idx_side = c0["l"] if c0["op"] == "<" else c0["r"]
-        if key(strip_casts(idx_side)) != iv:
-            continue
-        start = None
-        if lp["k"] == "for" and lp.get("init") is not None and lp["init"]["k"] == "bin":
-            start = cval(lp["init"]["r"])
-        else:
-            inits = [n_ for n_, lv_, op_, r_ in stores(f.body)
-                     if lv_["k"] == "ref" and lv_["name"] == iv and op_ == "=" and
-                     f.cfg.dominates(n_, c0) and not any(x["id"] == n_["id"] for x in walk(lp))]
-            if inits:
-                start = cval(inits[-1]["r"])
-        if start == 0:
-            clear = lp
+    for g, sub, site in owners:
+        for lp in g.walk():
+            if lp["k"] not in ("for", "while") or lp.get("c") is None:
+                continue
+            body_calls = [c for c in calls_in(lp["body"], "lbuf_globget")]
+            if not body_calls or any(True for _ in calls_in(lp["body"], ("ex_exec", "ex_command"))):
+                continue
+            if any(True for _ in calls_in(lp["c"], "lbuf_globget")):
+                continue
+            iv = key(strip_casts(body_calls[0]["args"][1]))
+            c0 = lp["c"]
+            if c0["k"] != "bin" or c0["op"] not in ("<", ">") or "lbuf_len" not in key(c0):
+                continue
+            idx_side = c0["l"] if c0["op"] == "<" else c0["r"]
+            if key(strip_casts(idx_side)) != iv:
+                continue
+            # the body must not leave the loop early
+            if any(x["k"] in ("break", "return") for x in walk(lp["body"])):
+                continue
+            if cval(index_init(g, lp, iv)) == 0:
+                clear = (g, lp, site)
     if clear is None:
         ctx.violation("ec_glob", "marks cleared afterwards",
                       "no loop `for (i = 0; i < lbuf_len(xb); i++) lbuf_globget(...)` clears the "
                       "leftover marks of this depth")
     else:
-        cnode = clear["c"]
-        hit = cfg.search(cfg.pos(inc), lambda e: e == ("exit",),
-                         avoid=lambda e: e == cnode["id"])
+        g, lp, site = clear
+        cid = lp["c"]["id"] if g is f else site["id"]
+        hit = cfg.search(cfg.pos(inc), lambda e: e == ("exit",), avoid=lambda e: e == cid)
         if hit is not None:
             ctx.violation("ec_glob", "marks cleared afterwards",
                           "a return is reachable after xgdep++ that skips the clearing loop",
-                          f.loc(clear))
+                          g.loc(lp))
         else:
-            ctx.ok("ec_glob", "every exit after xgdep++ passes the clearing loop", loc=f.loc(clear))
+            ctx.ok("ec_glob", "every exit after xgdep++ passes the clearing loop", loc=g.loc(lp))
     # same depth for set and get; marks set for (beg, end), visit starts at beg
-    for c in list(f.calls("lbuf_globset")) + list(f.calls("lbuf_globget")):
-        if key(strip_casts(c["args"][2])) != "xgdep":
-            ctx.violation("ec_glob", "mark depth", "%s uses depth %s" % (c["fn"], key(c["args"][2])),
-                          f.loc(c))
-        else:
-            ctx.ok("ec_glob", "%s at depth xgdep" % c["fn"], loc=f.loc(c))
+    for g, sub, site in owners:
+        for c in list(g.calls("lbuf_globset")) + list(g.calls("lbuf_globget")):
+            if subst_key(key(strip_casts(c["args"][2])), sub) != "xgdep":
+                ctx.violation("ec_glob", "mark depth", "%s uses depth %s" % (c["fn"], key(c["args"][2])),
+                              g.loc(c))
+            else:
+                ctx.ok("ec_glob", "%s at depth xgdep" % c["fn"], loc=g.loc(c))
     rv = [strip_casts(a)["e"]["name"] for c in f.calls("ex_region") for a in c["args"][1:3]
           if strip_casts(a)["k"] == "un"]
     if len(rv) == 2:
         beg, end = rv
         okset = False
-        for lp in f.walk():
-            if lp["k"] in ("for", "while") and any(True for _ in calls_in(lp["body"], "lbuf_globset")):
-                gs = next(calls_in(lp["body"], "lbuf_globset"))
-                iv = key(strip_casts(gs["args"][1]))
-                ck = key(lp["c"])
-                if lp["k"] == "for" and lp.get("init") is not None:
-                    ik = key(lp["init"])
-                else:
-                    # the last store to the index that dominates the loop
-                    inits = [n_ for n_, lv_, op_, r_ in stores(f.body)
-                             if lv_["k"] == "ref" and lv_["name"] == iv and op_ == "=" and
-                             f.cfg.dominates(n_, lp["c"]) and not any(x["id"] == n_["id"] for x in walk(lp))]
-                    ik = key(inits[-1]) if inits else ""
-                steps = [n_ for n_, lv_, op_, r_ in stores(lp.get("inc") or lp["body"])
-                         if lv_["k"] == "ref" and lv_["name"] == iv]
-                if lp["k"] == "while":
-                    steps = [n_ for n_, lv_, op_, r_ in stores(lp["body"]) if lv_["k"] == "ref" and lv_["name"] == iv]
-                step_ok = len(steps) == 1 and (steps[0].get("op") in ("post++", "pre++") or (
-                    steps[0].get("op") == "+=" and cval(steps[0]["r"]) == 1))
-                if ik.endswith("=(%s+1))" % beg) and ck in ("(%s<%s)" % (iv, end), "(%s>%s)" % (end, iv)) and step_ok:
-                    okset = True
-                elif ik and step_ok:
-                    ctx.violation("ec_glob", "lines of the range are marked",
-                                  "marking loop runs from `%s` while `%s`, expected the open range (beg, end)" % (ik, ck), f.loc(lp))
-                    okset = None
+        for g, sub, site in owners:
+            for lp in g.walk():
+                if lp["k"] in ("for", "while") and lp.get("c") is not None and any(True for _ in calls_in(lp["body"], "lbuf_globset")):
+                    gs = next(calls_in(lp["body"], "lbuf_globset"))
+                    iv = key(strip_casts(gs["args"][1]))
+                    ck = subst_key(key(lp["c"]), sub)
+                    i0 = index_init(g, lp, iv)
+                    ik = subst_key(key(strip_casts(i0)), sub) if i0 is not None else ""
+                    steps = [n_ for n_, lv_, op_, r_ in stores(lp.get("inc") or lp["body"])
+                             if lv_["k"] == "ref" and lv_["name"] == iv]
+                    if lp["k"] == "while":
+                        steps = [n_ for n_, lv_, op_, r_ in stores(lp["body"]) if lv_["k"] == "ref" and lv_["name"] == iv]
+                    step_ok = len(steps) == 1 and (steps[0].get("op") in ("post++", "pre++") or (
+                        steps[0].get("op") == "+=" and cval(steps[0]["r"]) == 1))
+                    if ik in ("(%s+1)" % beg, "(1+%s)" % beg) and ck in ("(%s<%s)" % (iv, end), "(%s>%s)" % (end, iv)) and step_ok:
+                        okset = True
+                    elif ik and step_ok:
+                        ctx.violation("ec_glob", "lines of the range are marked",
+                                      "marking loop runs from `%s` while `%s`, expected the open range (beg, end)" % (ik, ck), g.loc(lp))
+                        okset = None
         if okset:
             ctx.ok("ec_glob", "lines beg+1 .. end-1 are marked, the visit starts at beg")
         elif okset is False:
